@@ -1,7 +1,8 @@
 """C20 — a method the analyzer accepts does not fail on names, args or units.
 
 Domain : generated UODs (UodBuilder: 1-5 tags with units from every quantity or none, optional totalizer / accumulated
-         volume, 1-4 commands with RegexNumber / RegexCategorical / RegexText / no-argument / default parsers)  x  generated
+         volume, 1-4 commands with RegexNumber / RegexCategorical / RegexText / no-argument / default parsers or a hand-written,
+         unanchored / partly anchored regex as in the project's own tests; arguments with text around a matching core)  x  generated
          methods using those names with valid and near-miss names, arguments and units (Watch/Alarm conditions, Simulate,
          UOD commands, Wait/Pause/Hold/Base/Run counter ...).
 System : the analyzer is fed exactly what the engine publishes: EngineMessageBuilder.create_uod_info().uod_definition
@@ -41,13 +42,13 @@ ID = "C20"
 LEVEL = "exploration"
 ENGINE = "engine_harness"
 TECHNIQUE = "generated UODs x generated methods with near-miss names/arguments/units; differential analyzer (published definitions) vs engine run"
-RULE = ("Hypothesis draws a UOD spec (tags with/without units, regex-number/categorical/text/no-arg/default commands, optional "
+RULE = ("Hypothesis draws a UOD spec (tags with/without units, regex-number/categorical/text/no-arg/default/hand-written-regex commands, optional "
         "totalizer) and a method of 3-14 top-level constructs with 0-3 near-miss lines. Lines with analyzer ERRORs are removed until the "
         "method is analyzer-clean. Non-trivial = the clean method that is run contains >= 1 Watch/Alarm whose value carries a unit "
         "and >= 1 command with a regex argument parser. Distinct = distinct (UOD spec, method text).")
 ASSUMPTIONS = [
-    "only argument parsers the engine can publish are generated (regex based, none, default); a hand-written arg_parse_fn is "
-    "invisible to the analyzer by construction",
+    "only argument parsers the engine can publish are generated (regex based incl. hand-written regexes, none, default); a "
+    "hand-written arg_parse_fn *function* is invisible to the analyzer by construction",
     "the cause of an engine error is read from the exception chain given to on_method_error (message patterns in c20_h.CAUSES)",
     "an unknown unit in a condition ('Invalid unit') is counted as incompatible units; a non-numeric comparison value, a failing "
     "Simulate conversion and every other cause are counted but not judged",
@@ -151,7 +152,7 @@ def run_case(case):
             info["classes"].add("near-miss-accepted:%s" % k)
     info["clean_lines"] = len(cur)
     has_cond_unit = any(_has_unit_condition(t) for t in cur)
-    has_regex_cmd = any(_construct(spec, t) in ("uod-command:number", "uod-command:categorical", "uod-command:text", "uod-command:noargs")
+    has_regex_cmd = any(_construct(spec, t) in ("uod-command:number", "uod-command:categorical", "uod-command:text", "uod-command:noargs", "uod-command:regex")
                         for t in cur)
     info["nontrivial"] = has_cond_unit and has_regex_cmd
     if has_cond_unit:
